@@ -202,6 +202,8 @@ class Env:
             if modname != SRC_MODULE or name not in self.src:
                 raise Invalid("hy.R target unknown")
             return ("user", self.src[name])
+        if key.startswith("hy.pyops."):
+            return None  # the operator functions: not macros
         if key.startswith("hy."):
             raise Invalid("hy.* heads are not in the domain")
         if self.use_ovr and key in self.ovr:
@@ -437,6 +439,14 @@ def compile_safe(n, env, fuel=FUEL):
 
 # ---------------------------------------------------------------- the stepper
 
+SHADOW_OPS = {"not", "bnot", "and", "or", "=", "is", "<", "<=", ">", ">=", "!=", "is-not", "in", "not-in", "+", "*", "|", "-", "/", "&", "@",
+              "**", "//", "<<", ">>", "%", "^", "get"}
+
+
+def is_unpack_iterable(n):
+    return n[0] == "(" and len(n[1]) >= 1 and n[1][0] == ["s", "unpack-iterable"]
+
+
 
 def step(form, env):
     """-> (kind, form', info): kind "identity" (no macro call), "result" (compiler-implemented core macro: form stays), "expanded"."""
@@ -445,6 +455,10 @@ def step(form, env):
     r = env.lookup(form[1][0])
     if r is None:
         return ("identity", form, None)
+    if r[0] == "core-result" and r[1] in SHADOW_OPS and any(is_unpack_iterable(a) for a in form[1][1:]):
+        # docs (hy.pyops) / property C03: an operator-macro call containing #* falls back to the same-named hy.pyops function;
+        # the macro returns that call as a model, so it is an expansion step like any other
+        return ("expanded", ["(", [["(", [["s", "."], ["s", "hy"], ["s", "pyops"], ["s", r[1]]]]] + list(form[1][1:])], "core-shadow:" + r[1])
     if r[0] == "core-result":
         if not result_form_ok(form, r[1], env, FUEL):
             raise Invalid("form for compiler-implemented macro %s is outside the shapes known to compile" % r[1])
